@@ -145,11 +145,12 @@ def GetMode.ok : GetMode → Bool
 
 def PropE.ok (p : PropE) : Bool := p.ctor.ok && p.absent.ok && p.get.ok
 
-def ClsE.ok (c : ClsE) : Bool := c.props.all PropE.ok && c.deepOk && (!c.isContainer || (c.copyDeep && c.updDeep))
+def ClsE.ok (c : ClsE) : Bool := c.props.all PropE.ok && c.deepOk
 
-/-- the decidable side condition on the generated table: no descriptor ever hands out a class-level object, and the
-    copy operations of the library (`deepcopy` inside `init_instance_data`, `mk_copy`, `update_from_other_container`)
-    share nothing with their source. (`copy.copy` of a data type is the caller's shallow copy and may share.) -/
+/-- the decidable side condition on the generated table: no descriptor ever hands out a class-level object, and
+    `copy.deepcopy` (used by `init_instance_data`) shares nothing with its source. `mk_copy` / `copy.copy` and
+    `update_from_other_container` may be shallow (they are on this tree: a copy is linked to its source, the table
+    records it in `copyDeep` / `updDeep`); what the provider hands out is copied deeply in `mdib/transactions.py`. -/
 def tableOK (T : Table) : Bool := T.all ClsE.ok
 
 /-! ## state and operations -/
